@@ -517,13 +517,13 @@ def fresh_replay(inp, saved, hist_so_far, call):
     W2.gate_lists.update(gls)
     W2.instr_lists.update(ils)
     if call["op"] in PROC_QUERIES:
-        last = None
-        for c in hist_so_far:
-            # also a load that raised: it may have stored part of the program before raising
-            if c["op"] == "load" and c["proc"] == call["proc"]:
-                last = c
-        if last is not None:
-            ok, _ = safe_call(W2, {k: v for k, v in last.items() if not k.startswith("_")})
+        # every earlier load on that processor, in order (also those that raised: a load may store part of
+        # the program before raising; a later successful load replaces everything)
+        loads = [c for c in hist_so_far if c["op"] == "load" and c["proc"] == call["proc"]]
+        oks = [i for i, c in enumerate(loads) if c.get("_ok")]
+        loads = loads[(oks[-1] if oks else 0):]
+        for c in loads:
+            safe_call(W2, {k: v for k, v in c.items() if not k.startswith("_")})
     return safe_call(W2, call)
 
 
